@@ -1,6 +1,7 @@
 """Reusable rule templates on top of cfg.py (Engine A)."""
 import os
 
+
 from .facts import children, strip_casts, strip_all_casts, walk, CALL_KINDS, VERIF, \
     load_program, library_units, units_matching
 
